@@ -179,6 +179,13 @@ def cargo_build():
         import shutil
         shutil.copy(lock_src, lock_dst)
     t = time.time()
+    # the LD_PRELOAD shims are built from source on every run as well
+    os.makedirs(os.path.join(VERIF, ".build"), exist_ok=True)
+    for so, src, libs in (("clockshim.so", "clockshim.c", ["-ldl"]), ("fsjournal.so", "fsjournal.c", ["-ldl", "-lpthread"])):
+        dst = os.path.join(VERIF, ".build", so)
+        srcp = os.path.join(VERIF, "shim", src)
+        if not os.path.exists(dst) or os.path.getmtime(dst) < os.path.getmtime(srcp):
+            sh(["gcc", "-shared", "-fPIC", "-O2", "-o", dst, srcp] + libs, cwd=VERIF, timeout=120)
     rc, out = sh(["cargo", "build", "--offline"], cwd=HARNESS_DIR, timeout=3600)
     return rc, out, time.time() - t
 
